@@ -847,6 +847,46 @@ impl PlCdrDeserialize for DiscoveredWriterData {
 
     let qos = QosPolicies::from_parameter_list(ctx, &pl_map)?;
 
+    // DDS-RPC extension parameters: written by to_parameter_list, so read them back
+    let service_instance_name: Option<String> = get_option_from_pl_map::<_, StringWithNul>(
+      &pl_map,
+      ctx,
+      ParameterId::PID_SERVICE_INSTANCE_NAME,
+      "service instance name",
+    )?
+    .map(String::from);
+    let related_datareader_key: Option<GUID> = get_option_from_pl_map(
+      &pl_map,
+      ctx,
+      ParameterId::PID_RELATED_ENTITY_GUID,
+      "related entity GUID",
+    )?;
+    let topic_aliases: Vec<String> = get_all_from_pl_map::<_, StringWithNul>(
+      &pl_map,
+      &ctx,
+      ParameterId::PID_TOPIC_ALIASES,
+      "topic aliases",
+    )?
+    .into_iter()
+    .map(String::from)
+    .collect();
+
+    let mut publication_topic_data = PublicationBuiltinTopicData::new_with_qos(
+      guid,
+      participant_guid,
+      topic_name,
+      type_name,
+      &qos,
+      security_info,
+    );
+    publication_topic_data.service_instance_name = service_instance_name;
+    publication_topic_data.related_datareader_key = related_datareader_key;
+    publication_topic_data.topic_aliases = if topic_aliases.is_empty() {
+      None
+    } else {
+      Some(topic_aliases)
+    };
+
     Ok(DiscoveredWriterData {
       last_updated: Instant::now(),
       writer_proxy: WriterProxy {
@@ -855,14 +895,7 @@ impl PlCdrDeserialize for DiscoveredWriterData {
         multicast_locator_list,
         data_max_size_serialized,
       },
-      publication_topic_data: PublicationBuiltinTopicData::new_with_qos(
-        guid,
-        participant_guid,
-        topic_name,
-        type_name,
-        &qos,
-        security_info,
-      ),
+      publication_topic_data,
     })
   }
 }
